@@ -63,7 +63,8 @@ def scenarios(tier, seed):
 
 
 def _accuracy_job(job):
-    case, m, tol, dt0 = job
+    case, m, tol, dt0 = job[:4]
+    via_setters = len(job) > 4 and bool(job[4])
     T = case["k"] / 8.0
     rtol = atol = tol
     y0 = [1.0]
@@ -76,6 +77,10 @@ def _accuracy_job(job):
         y0 = [3.0, 1.0, 2.0 ** -20]
     sc = gen.base(m, 0.0, T, dt0, rtol=rtol, atol=atol, problem=case["problem"], y0=y0)
     rtol, atol = sc["rtol"], sc["atol"]      # gen.base bounds the tolerance per method
+    if via_setters:
+        # the system is built with loose tolerances; the ones the run must honour are assigned through the rtol / atol setters afterwards
+        sc["rtol"], sc["atol"] = 1e-2, 1e-2
+        sc["ops"] = [{"op": "set", "what": "rtol", "v": rtol}, {"op": "set", "what": "atol", "v": atol}, {"op": "integrate"}]
     try:
         r = scen.run_plain(sc)
     except Exception as e:   # noqa
@@ -93,7 +98,7 @@ def _accuracy_job(job):
     else:
         eu, endu = num.CAP, num.CAP
     return {"problem": case["problem"], "k": case["k"], "num": case["num"], "den": case["den"], "comps": case["comps"], "ok": ok, "errUnits": eu,
-            "endUnits": endu, "method": str(m), "tol": tol, "dt0": dt0, "steps": len(r["t"]) - 1}
+            "endUnits": endu, "method": str(m) + (" tolerances-by-setter" if via_setters else ""), "tol": tol, "dt0": dt0, "steps": len(r["t"]) - 1}
 
 
 def check(run, replay=None):
@@ -131,6 +136,11 @@ def check(run, replay=None):
                         continue
                     for dt0 in ((1e-4, 0.25, 5.0) if thorough else ((0.25, 5.0) if tol > 1e-8 else (1e-4, 0.25))):
                         jobs.append((c, m, tol, dt0))
+            # tolerances assigned through the setters after the method was chosen (an embedded pair re-reads them every step; a
+            # Richardson wrapper copies them when it is built)
+            for m in ("RK45CK", {"rich": "RK4", "levels": 3}) + (({"rich": "RK45CK", "levels": 2}, "RadauIIA5") if thorough else ()):
+                if c["problem"] in ("rat", "pair") and c["k"] in (8, -4) and not (m == "RadauIIA5" and c["problem"] == "pair"):    # (finding f30)
+                    jobs.append((c, m, 1e-8, 0.25, True))
             if not thorough:
                 # a first attempt of half the span overflows in the stages of the 35-stage pair: the retries must recover (finding f25)
                 jobs.append((c, "RK1412", 1e-6, 5.0))
